@@ -818,8 +818,15 @@ func c14CheckErrors(run *Run, in any, mode string, data any, errs []any, nulledP
 			}
 		}
 		if !found {
+			known := ""
+			for _, ep := range unauth {
+				if c14HasPrefixModuloIndices(ep, p) {
+					// the same object reached through another list element already got the error (and was nulled in place)
+					known = "C14-denial-reported-once-per-shared-object"
+				}
+			}
 			run.Violate(Violation{Kind: "oracle", Clause: "denial_reported_at_position:" + mode, Input: in, Impl: raw,
-				Detail: fmt.Sprintf("position %v was nulled by a denial but no authorization error has a path at or below it; errors: %s", p, truncate(jsonStr(errs), 700))}, "")
+				Detail: fmt.Sprintf("position %v was nulled by a denial but no authorization error has a path at or below it; errors: %s", p, truncate(jsonStr(errs), 700))}, known)
 			return
 		}
 	}
@@ -999,4 +1006,22 @@ func c14MaskComputed(v any) any {
 		}
 	}
 	return v
+}
+
+// prefix test that ignores the values of list indices
+func c14HasPrefixModuloIndices(path, prefix []any) bool {
+	if len(path) < len(prefix) {
+		return false
+	}
+	for i := range prefix {
+		_, pi := prefix[i].(int)
+		_, qi := path[i].(int)
+		if pi && qi {
+			continue
+		}
+		if pi != qi || fmt.Sprint(path[i]) != fmt.Sprint(prefix[i]) {
+			return false
+		}
+	}
+	return true
 }
